@@ -226,6 +226,40 @@ TYPED = """(define (domain bystander)
 """
 
 
+_nth = {"n": None, "exc": None, "orig": None}
+
+
+def arm_nth_read(n, exc):
+    """the n-th (0-based) read-open under the scratch root from now on fails with exc (later agent files fail while
+    earlier ones were merged already)"""
+    import builtins
+    import io
+    _nth.update(n=n, exc=exc, orig=builtins.open)
+    seam = builtins.open
+
+    def opener(file, mode="r", *a, **kw):
+        if fs._under_root(file) is not None and "w" not in mode:
+            if _nth["n"] == 0:
+                _nth["n"] = None
+                fs.counters()["r_open_fault"] += 1
+                raise exc
+            if _nth["n"] is not None:
+                _nth["n"] -= 1
+        return seam(file, mode, *a, **kw)
+
+    builtins.open = opener
+    io.open = opener
+
+
+def disarm_nth_read():
+    import builtins
+    import io
+    if _nth["orig"] is not None:
+        builtins.open = _nth["orig"]
+        io.open = _nth["orig"]
+        _nth["orig"] = None
+
+
 def check_fresh_domain(ctx, site, when):
     fresh = L().Domain()
     if list(fresh.types) != ["object"] or fresh.constants or fresh.predicates or fresh.actions or fresh.functions:
@@ -384,6 +418,42 @@ def run(ctx):
     for i, PF in enumerate(pfiles):
         fs.write_real(ddir / f"{prefix}-{i}.pddl", G.render_problem(W.D, PF))
     pconv = MultiAgentProblemsConverter(ddir, prefix)
+    # ---- fault: an unreadable / torn agent problem file => combine_problems raises; a later call is unaffected
+    if cfg.chance(1, 3):
+        which = ops.draw(nfiles)
+        pp = ddir / f"{prefix}-{which}.pddl"
+        good = G.render_problem(W.D, pfiles[which])
+        kind = f.draw(3)
+        if kind == 0:
+            cut = f.draw(max(1, len(good) - 2))
+            fs.write_real(pp, good[:cut])
+            ctx.faults["agent_problem_torn"] += 1
+            raised = False
+            try:
+                MultiAgentProblemsConverter(ddir, prefix).combine_problems(path)
+            except Exception:
+                raised = True
+            if not raised and sexpr.classify(good[:cut])[0] == "reject":
+                raise Violation("C17/torn-agent-file-accepted", "combine_problems",
+                                f"{prefix}-{which}.pddl cut after {cut} of {len(good)} bytes was combined without error")
+            fs.write_real(pp, good)
+        else:
+            # let the domain file and (kind 2) the first agent problem be read, then fail
+            exc = [PermissionError(errno.EACCES, "sim"), OSError(errno.EIO, "sim")][f.draw(2)]
+            ctx.faults["agent_problem_unreadable"] += 1
+            arm_nth_read(1 + (kind - 1) * min(1, nfiles - 1), exc)
+            try:
+                MultiAgentProblemsConverter(ddir, prefix).combine_problems(path)
+            except OSError:
+                pass
+            except Exception as e:
+                raise Violation("C17/combine-problems-raised", "combine_problems",
+                                f"unexpected {type(e).__name__} instead of the read error: {e}")
+            else:
+                raise Violation("C17/read-fault-swallowed", "combine_problems", "returned despite a read error")
+            finally:
+                disarm_nth_read()
+        check_bystanders("after a combine_problems call that failed")
     pfirst = None
     for o in range(1 if nfiles == 1 else 2):
         if o:
